@@ -377,6 +377,20 @@ def run(ctx):
             ctx.spec_fail('aggregate|sized-container', 'row counts over a table container with its own __len__ do not add up to the number of data rows',
                           {'table': repr(T), 'len(container)': len(R), '(aggregate(None, len), nrows, valuecounter total, group counts total)': repr(got), 'nrows': n})
 
+    # ---- merge(): `missing` fills the fields a table does not have, and is not a value that can conflict
+    for ci in range(80 if ctx.thorough() else 24):
+        A = [['k', 'a']] + [[rng.choice([1, 2, 3]), rng.choice(['x', 'y'])] for _ in range(rng.choice([1, 2, 3]))]
+        B = [['k', 'b']] + [[rng.choice([1, 2, 4]), rng.choice(['p', 'q'])] for _ in range(rng.choice([1, 2, 3]))]
+        m = rng.choice(['NA', 0, ''])
+        with_m = util.run_show(lambda: etl.merge(A, B, key='k', missing=m))
+        plain = list(etl.merge(A, B, key='k'))
+        want = util.show_out([tuple((m if c is None else c) for c in r) for r in plain])
+        ctx.case(('merge(missing)', repr(A), repr(B), repr(m)))
+        ctx.count('op:merge(missing)')
+        if with_m != want.replace('N ', 'N ') and 'Conflict' not in repr(plain):
+            ctx.spec_fail('merge|missing', 'merge(missing=...) is not merge() with the absent cells filled by that value',
+                          {'a': repr(A), 'b': repr(B), 'missing': repr(m), 'real': with_m, 'want': want})
+
     util.positional_call_cases(etl, rng, ctx, ['mergeduplicates'], 120 if ctx.thorough() else 36, 1)
 
 def replay(d):
